@@ -291,6 +291,10 @@ def run(repo: Repo, rep: Report, tier: str) -> None:
         under_cmd = any(c in ("control_header_byte&1", "control_header_byte&3==3", "control_header_byte&1==1", "control_header_byte&1!=0") or "control_header_byte&1" in c for c in conds)
         rep.check(under_cmd, "id-origin", "dimse_messages.DIMSEMessage.decode_msg", w_ctx[0], "the message's context id is not taken from the PDV that carries the command set (the write is outside the `control_header_byte & 1` branch): a request whose command set arrives under a rejected / unknown id and whose data-set fragments arrive under an accepted one ends up with the accepted id, passes the accepted-context guards and reaches the handler", mod=msgs, node=w_ctx[0])
     rep.extra["trigger_sites"] = [f"{s}.{qualname(c)}:{en}" for s, m, c, en in sites]
+    # ---- the accepted-context table itself is what was negotiated -----------------------------------------
+    from ..delegate import delegate
+    rep.rule("accepted-table", "the requestor's table of accepted contexts holds exactly the contexts the peer accepted (C11's requestor-view and iteration-independent rules)")
+    delegate(repo, rep, tier, "C11", ("requestor-view", "iteration-independent"), "accepted-table", "a context the peer never accepted (omitted from its A-ASSOCIATE-AC, or rejected) ends up in the accepted table: a request the peer later sends on that id passes the accepted-context guard and reaches the handler")
     rep.rule("guarded-lookup", "every lookup in the accepted-context table by a peer-chosen id expects the miss (try / except KeyError or a membership test)")
     rep.floor("accepted-context lookups", check_guarded_lookup(repo, rep), 3)
     # ---- state is per instance -------------------------------------------------------------------
